@@ -15,6 +15,12 @@ func init() {
 	budgets["C13"] = st(1600, 16000, "adversarial names + unnamed parameters over the type grammar; non-trivial = an asserted parameter whose record field differs from plain first-letter capitalisation (initialism) or an asserted unnamed parameter of a non-basic type")
 	budgets["C14"] = st(480, 4000, "each case is executed 4 (thorough: 8) times as separate processes plus twice through the library in one child process; non-trivial = output with >=3 import specs, >=1 import alias or >=1 renamed parameter")
 	budgets["C16"] = st(800, 10000, "each case is generated under the default formatter, gofmt, noop and goimports; non-trivial = output importing both std and non-std packages or containing a line longer than 100 columns")
+	budgets["C15"] = budget{Harness: "clifs", Quick: 320, Thorough: 3000, Level: "exploration",
+		Rule: "rapid draws an in-place world with two source versions (v2 adds a method) and a history of 4-9 steps over one -out path (generate, generate -rm, scribble absent/own output/other version's output/random bytes/non-compiling Go/clashing declarations, evolve); non-trivial = a history that regenerates over moq's own output containing an import alias, or runs -rm over prior content that is not the clean output; distinct by sha256(world, command line, history)"}
+	budgets["C17"] = budget{Harness: "clifs", Quick: 480, Thorough: 6000, Level: "fault_enumeration",
+		Rule: "rapid samples the matrix failure point {none, <2 args, source missing/empty/syntax error/type error/two packages, k-th of n arguments bad, parent is a file, -out is a directory, immutable file, immutable directory, over-long name, -rm on a non-empty directory} x prior state of -out {absent, arbitrary bytes, previous good output} x -rm x -out location x flags; plus the library writer probe (counting / failing writer) in a child process; non-trivial = a failing run with a pre-existing -out file, or a bad k-th argument after >=1 good one, or a nested -out path"}
+	budgets["C18"] = budget{Harness: "clifs", Quick: 480, Thorough: 6000, Level: "fault_enumeration",
+		Rule: "the runs of C17 (successful and every failure kind) plus -pkg values naming an existing / a missing sub-directory and nested -out directories; the whole scratch tree (module + foreign cwd) is content-hashed before and after; non-trivial = a failing run, a -pkg directory probe, or an -out path two or more directories deep"}
 	budgets["C19"] = st(1600, 24000, "35% of command lines carry one hostile interface argument; non-trivial = the run took an error path (exit != 0) or the world has >=2 imported packages sharing a name / sanitised name / shadowing a std package")
 	budgets["C20"] = st(960, 12000, "85% multi-argument command lines; every interface of a joint run is also generated alone; non-trivial = >=2 requested mocks whose solo outputs share >=1 imported package")
 }
